@@ -127,7 +127,8 @@ pub fn pipe(v: &[Sx]) -> Sx {
     } else {
         a("noeval")
     };
-    l(vec![a("ok"), parsed, es, tys, ev, b(ctx_ok), hooks_check, raw])
+    let hooks_eval = hooks_take();
+    l(vec![a("ok"), parsed, es, tys, ev, b(ctx_ok), hooks_check, raw, hooks_eval])
 }
 
 fn ex(t: &Term<'static>) -> Sx {
